@@ -1,4 +1,5 @@
 import OcVerif.Proofs.Queue.Len
+import OcVerif.Proofs.Queue.PlainQ
 /-!
 # C04 — queue operations and task submission always terminate
 
@@ -37,5 +38,10 @@ is handled: the push returns and overflows nothing it does not have. -/
 theorem C04_former_spin_witness :
     (run (mk 2 4) [.lpush 0 0 0, .lpush 0 0 1, .lpush 0 0 2, .lpush 0 0 3,
                    .lpop 1 0, .lpop 1 0, .lpop 1 0, .lpush 0 0 4]).map (·.2) = some [0, 1, 2] := by decide
+
+/-- Plain queue: every call on an existing handle returns, from every state (its operations are
+total functions: the overflow move is a bounded `take`/`drop`, the steal scan visits each sibling once). -/
+theorem C04_plain_step_terminates (s : Oc.Queue.Plain.PSys) (o : Oc.Queue.Plain.POp) (hv : o.valid s.locals.length = true) :
+    (Oc.Queue.Plain.pstep s o).isSome = true := Oc.Queue.Plain.pstep_isSome s o hv
 
 end Oc.Props.C04
